@@ -10,6 +10,7 @@ FM_BITS = 'float model FM-bits: an exec float operation is the named IEEE functi
 FM_ORD = 'float model FM-order: comparisons go through nan()/ord() (order embedding of non-NaN floats); true of IEEE 754'
 PARAM = ('parametricity: generic code (Segment<T>, Piecewise<T>, PiecewiseEvaluator<T>) can use a piece only through its trait '
          'methods, so behaviour observed with the recording Tag piece type is the behaviour for every T')
+SMALL = 'numbers range over integer-valued doubles in [-100,100] (exact arithmetic; CBMC float circuits are otherwise intractable)'
 Z3W = 'tools/z3wrap.sh changes one Z3 heuristic option (smt.arith.nl) for Verus queries; unsat answers are as sound as before'
 
 
@@ -250,8 +251,6 @@ PROPS['C15'] = {
                     'that the operation on each concrete piece type acts pointwise is C14'],
 }
 
-
-SMALL = 'numbers range over integer-valued doubles in [-100,100] (exact arithmetic; CBMC float circuits are otherwise intractable)'
 
 PROPS['C09'] = {
     'verus': ['u_log'],
